@@ -39,6 +39,13 @@ def main():
         except Exception as e:  # noqa: BLE001
             agent_meta = {"unreadable": str(e)}
     out["agent_meta"] = agent_meta
+    # the agents' worktrees share one stash: trust patch.diff, not the worktree state
+    want = open(f"{wt}/patch.diff").read()
+    sh("git checkout -- src", cwd=wt)
+    rc, o = sh("git apply patch.diff", cwd=wt)
+    if rc != 0:
+        print("patch.diff does not apply to a clean worktree:", o)
+        return 2
     rc, diff = sh("git diff -- src", cwd=wt)
     if not diff.strip():
         print("no source change in worktree")
@@ -53,12 +60,12 @@ def main():
     rc, o = sh(demo_cmd, cwd=wt, env=env, timeout=600)
     out["demo_with_patch"] = {"rc": rc, "tail": o.strip().splitlines()[-3:]}
     # without patch
-    sh("git stash", cwd=wt)
+    sh("git apply -R patch.diff", cwd=wt)
     try:
         rc, o = sh(demo_cmd, cwd=wt, env=env, timeout=600)
         out["demo_without_patch"] = {"rc": rc, "tail": o.strip().splitlines()[-3:]}
     finally:
-        sh("git stash pop", cwd=wt)
+        sh("git apply patch.diff", cwd=wt)
     ok = out.get("suite_with_patch", {"rc": 0})["rc"] == 0 and out["demo_with_patch"]["rc"] != 0 and out["demo_without_patch"]["rc"] == 0
     out["confirmed"] = ok
     dest = os.path.join(ROOT, "seeded", a.sid)
